@@ -450,8 +450,13 @@ class BuildObserver:
     def allowed_read(self, spec, path):
         if path in spec["srcs"] or path == spec["tpl"]:
             return True
+        # Looking at the previous version of a file the task is asked to produce (compare before rewriting,
+        # open for update) is not "reading something else": what matters is that the final content does not
+        # depend on it, which I4 / H1 decide from the result.
         if spec["kind"] == "ml":
-            return False
+            return _under(path, spec["outdir"]) and path in self.targets.get(spec["name"], ())
+        if path in spec["targets"]:
+            return True
         if spec["xml"] and _under(path, spec["xml"]):
             return True
         # PybindWrapper.wrap() is given all files of the module but reads only the first; reading the
